@@ -46,7 +46,7 @@ func init() {
 			if tier == "thorough" {
 				return 400000
 			}
-			return 8000
+			return 12000
 		},
 		Batch: func(tier string) int { return 50 },
 		Run:   run,
@@ -379,7 +379,8 @@ func run(c *core.Ctx) {
 	c.Count("frames_succeeded", int64(m.framesOK))
 	c.Count("snapshots", int64(m.snapshots))
 	c.Count("decimals_probe_frames", int64(m.probes))
-	c.Count("decimals_probe_steps", int64(m.probeSteps))
+	c.Count("decimals_probe_frames_uncharged", int64(m.probesUncharged))
+	c.Count("decimals_probe_steps_uncharged", int64(m.probeSteps))
 	c.Max("depth", int64(m.maxDepth))
 	c.Count("frames", int64(m.nframes))
 	if m.truncated {
@@ -406,10 +407,6 @@ func run(c *core.Ctx) {
 	c.Count("op_SELFDESTRUCT", selfdestructs)
 	c.Count("op_LOG", logs)
 	c.Count("op_REVERT", int64(m.ops[byte(evm.REVERT)]))
-	c.Count("op_TIMESTAMP", int64(m.ops[byte(evm.TIMESTAMP)]))
-	if m.ops[byte(evm.TIMESTAMP)] > 0 {
-		c.Count("cases_with_TIMESTAMP", 1)
-	}
 	_ = tokenOps
 	if !o1.panicked {
 		c.Count("top_"+o1.Err, 1)
@@ -455,24 +452,25 @@ func run(c *core.Ctx) {
 		c.Violation(f.key, f.detail+" (second run)", map[string]interface{}{"world": w})
 	}
 	c.Count("second_runs_compared", 1)
+	// most significant observable first: it names the class of the violation
 	var diff []string
 	cmp := func(name string, a, b interface{}) {
 		if a != b {
 			diff = append(diff, name)
 		}
 	}
+	cmp("error", o1.Err, o2.Err)
 	cmp("return-data", o1.Ret, o2.Ret)
 	cmp("left-over-gas", o1.Left, o2.Left)
-	cmp("error", o1.Err, o2.Err)
 	cmp("created-address", o1.Created, o2.Created)
-	cmp("steps", o1.Steps, o2.Steps)
-	cmp("trace", o1.Trace, o2.Trace)
 	cmp("state-root", o1.Root, o2.Root)
 	cmp("state-getters", o1.Snap, o2.Snap)
 	cmp("logs", o1.Logs, o2.Logs)
 	cmp("refund", o1.Refund, o2.Refund)
+	cmp("steps", o1.Steps, o2.Steps)
+	cmp("trace", o1.Trace, o2.Trace)
 	if len(diff) > 0 {
-		c.Violation("determinism/"+strings.Join(diff, "+"), "two executions of the same (state, code, input, gas, value) differ",
+		c.Violation("determinism/"+diff[0], "two executions of the same (state, code, input, gas, value) differ in: "+strings.Join(diff, ", "),
 			map[string]interface{}{"world": w, "run1": o1, "run2": o2})
 	}
 }
